@@ -380,6 +380,7 @@ func init() {
 			c.ruleUpdateCriticalSection()
 			c.ruleActiveDestinations()
 			c.ruleMacIndexHandles()
+			c.ruleAdjRibStoresIncoming()
 		},
 	})
 	register(&Check{
@@ -438,4 +439,109 @@ func (c *Ctx) ruleRTRHandled() {
 var rtrNotHandled = map[string]string{
 	"RTRSerialQuery": "router-to-cache PDU: a cache never sends it to a router",
 	"RTRResetQuery":  "router-to-cache PDU: a cache never sends it to a router",
+}
+
+// ruleAdjRibStoresIncoming: Adj-RIB-In keeps the most recent announcement: on the announce
+// branch of AdjRib.Update the incoming path is stored on every path (replacing or appended).
+func (c *Ctx) ruleAdjRibStoresIncoming() {
+	r := c.R
+	rule := "E6.adj-in-stores-latest"
+	r.Rule(rule, "in AdjRib.Update, once an incoming path is not a withdrawal, every path through the loop body stores that very path into the destination's list (element store or append) — the stored route per (destination, path-id) is always the most recent announcement", 1)
+	fn := c.P.Func("(*internal/pkg/table.AdjRib).Update")
+	dn := c.P.NamedType("internal/pkg/table", "destination")
+	if fn == nil || dn == nil {
+		r.Undec(rule, "-", "anchor:AdjRib.Update", "-", "not found")
+		return
+	}
+	kpl := ir.Field(dn, "knownPathList")
+	fk := ir.FuncKey(fn)
+	// the branch on path.IsWithdraw
+	found := 0
+	for _, b := range fn.Blocks {
+		iff, ok := b.Instrs[len(b.Instrs)-1].(*ssa.If)
+		if !ok {
+			continue
+		}
+		u, ok := iff.Cond.(*ssa.UnOp)
+		if !ok {
+			continue
+		}
+		fa, ok := u.X.(*ssa.FieldAddr)
+		if !ok || ir.FieldOf(fa).Name() != "IsWithdraw" {
+			continue
+		}
+		path := fa.X
+		found++
+		entry := b.Succs[1]
+		// the loop head: a block dominating b that b can return to
+		isStore := func(bb *ssa.BasicBlock) bool {
+			for _, in := range bb.Instrs {
+				st, ok := in.(*ssa.Store)
+				if !ok {
+					continue
+				}
+				switch a := st.Addr.(type) {
+				case *ssa.IndexAddr:
+					if st.Val == path {
+						if ul, ok := a.X.(*ssa.UnOp); ok {
+							if f2, ok := ul.X.(*ssa.FieldAddr); ok && ir.FieldOf(f2) == kpl {
+								return true
+							}
+						}
+					}
+				case *ssa.FieldAddr:
+					if ir.FieldOf(a) == kpl {
+						if call, ok := st.Val.(*ssa.Call); ok {
+							if bi, ok := call.Call.Value.(*ssa.Builtin); ok && bi.Name() == "append" {
+								for _, arg := range call.Call.Args[1:] {
+									if els, ok := sliceLiteralElems(arg); ok {
+										for _, el := range els {
+											if el == path {
+												return true
+											}
+										}
+									}
+								}
+							}
+						}
+					}
+				}
+			}
+			return false
+		}
+		// walk from entry until we leave the iteration (reach a block that dominates b = loop head) or exit
+		seen := map[*ssa.BasicBlock]bool{}
+		work := []*ssa.BasicBlock{entry}
+		bad := false
+		for len(work) > 0 {
+			bb := work[0]
+			work = work[1:]
+			if seen[bb] {
+				continue
+			}
+			seen[bb] = true
+			if isStore(bb) {
+				continue
+			}
+			if ir.IsExit(bb) {
+				bad = true
+				continue
+			}
+			for _, s := range bb.Succs {
+				if s != b && s.Dominates(b) {
+					bad = true // back at the loop head without having stored the path
+					continue
+				}
+				work = append(work, s)
+			}
+		}
+		if bad {
+			r.Bad(rule, fk, "announce ⇒ incoming path stored", c.P.Pos(iff.Pos()), "some path through the announce branch leaves the previously stored path in place: Adj-RIB-In no longer holds the most recent announcement (e.g. a stale clone survives an identical re-announcement)")
+		} else {
+			r.Ok(rule, fk, "announce ⇒ incoming path stored", c.P.Pos(iff.Pos()), "")
+		}
+	}
+	if found == 0 {
+		r.Undec(rule, fk, "anchor:branch on path.IsWithdraw", c.P.Pos(fn.Pos()), "not found")
+	}
 }
